@@ -164,15 +164,15 @@ fn faults_for(base: &Base, tier: Tier) -> Vec<Fault> {
             v.push(Fault::Zero { part, page });
         }
         // Every bit of the first 64 bytes (all header / index-slot fields), then one bit per 64-byte stride.
-        let head_bits = if live { 64 * 8 } else { 16 };
+        let head_bits = if live { (if tier == Tier::Quick { 64 } else { 160 }) * 8 } else { 16 };
         for bit in 0..head_bits {
             v.push(Fault::Flip { part, page, bit });
         }
         if live {
-            let stride = if tier == Tier::Quick { 256 } else { 64 };
-            let mut byte = 64;
+            let stride = if tier == Tier::Quick { 256 } else { 1 };
+            let mut byte = if tier == Tier::Quick { 64 } else { 160 };
             while byte < PAGE {
-                v.push(Fault::Flip { part, page, bit: byte * 8 + (byte / stride) % 8 });
+                v.push(Fault::Flip { part, page, bit: byte * 8 + (byte / stride.max(1)) % 8 });
                 byte += stride;
             }
         }
@@ -480,7 +480,7 @@ impl Prop for C03Prop {
     }
 
     fn rule(&self) -> String {
-        "Enumerator F: base images are produced by a fixed real workload through Engine V (6 keys, entries of 1-3 pages, an overwrite, a delete, wait; 'wrapped' = five rounds so that blocks were reclaimed and rewritten) for compression none/zstd/lz4 x tombstone log on/off x fresh/wrapped (quick: 2 of the 12). For EVERY page of EVERY partition file including the tombstone log: zero it; flip every bit of its first 64 bytes and one bit per 256-byte (quick) / 64-byte (thorough) stride of the rest; swap it with every other page of every file; replace it by each older generation the IO log recorded for that page. Every faulted image is reopened with the real builder (quiet recovery) and every key is read through HybridCache::get; then a fresh insert + wait + evict + get must still work. Oracle: every read is a miss, an error, or bit-for-bit a value that was at some time stored for that key (values carry key, version and a deterministic payload); nothing panics or hangs. distinct = distinct faulted image bytes.".into()
+        "Enumerator F: base images are produced by a fixed real workload through Engine V (6 keys, entries of 1-3 pages, an overwrite, a delete, wait; 'wrapped' = five rounds so that blocks were reclaimed and rewritten) for compression none/zstd/lz4 x tombstone log on/off x fresh/wrapped (quick: 2 of the 12). For EVERY page of EVERY partition file including the tombstone log: zero it; flip every bit of its first 64 (quick) / 160 (thorough) bytes and one bit per 256-byte stride (quick) / one bit of every byte (thorough) of the rest; swap it with every other page of every file; replace it by each older generation the IO log recorded for that page. Every faulted image is reopened with the real builder (quiet recovery) and every key is read through HybridCache::get; then a fresh insert + wait + evict + get must still work. Oracle: every read is a miss, an error, or bit-for-bit a value that was at some time stored for that key (values carry key, version and a deterministic payload); nothing panics or hangs. distinct = distinct faulted image bytes.".into()
     }
 
     fn assumptions(&self) -> Vec<String> {
@@ -511,7 +511,7 @@ impl Prop for C03Prop {
 
     fn wall_cap(&self, tier: Tier) -> Duration {
         match tier {
-            Tier::Quick => Duration::from_secs(50),
+            Tier::Quick => Duration::from_secs(150),
             Tier::Thorough => Duration::from_secs(1500),
         }
     }
